@@ -57,6 +57,8 @@ func (x *lpExt) zeroOf(lt string) string {
 		return "[]"
 	case strings.HasPrefix(lt, "G_"):
 		return lt + ".zero"
+	case strings.HasPrefix(lt, "I_"): // loops_marshal.go: an interface value; its zero value is nil
+		return lt + ".nil_"
 	}
 	return ""
 }
@@ -81,6 +83,9 @@ func (t *lpTr) extStructTy(ty types.Type) string {
 	if n, ok := ty.(*types.Named); ok {
 		if _, isStruct := n.Underlying().(*types.Struct); isStruct {
 			return t.structName(n)
+		}
+		if _, isIface := n.Underlying().(*types.Interface); isIface {
+			return t.marshalIfaceTy(n) // loops_marshal.go
 		}
 	}
 	if b, ok := ty.Underlying().(*types.Basic); ok && b.Kind() == types.Int64 {
@@ -180,11 +185,23 @@ func (t *lpTr) beRead(c *ast.CallExpr) string {
 
 func (t *lpTr) extStructBytes(e ast.Expr, b *lpBinds) (string, bool) {
 	switch x := e.(type) {
+	case *ast.IndexExpr:
+		// xs[i] on a slice of byte slices ([]net.IP field): loops_marshal.go
+		if bt := t.info.TypeOf(x.X); bt != nil && t.leanTy(bt) == "(List Bytes)" {
+			base := t.expr(x.X, b)
+			i := t.intExpr(x.Index, b)
+			n := t.tmp()
+			b.add(fmt.Sprintf("let %s ← listIdxI %s %s", n, base, i))
+			return n, true
+		}
 	case *ast.SelectorExpr:
 		if s, ok := t.fieldRead(x, b); ok {
 			return s, true
 		}
 	case *ast.CallExpr:
+		if s, ok := t.marshalBytesCall(x, b); ok { // loops_marshal.go: net.CIDRMask, net.IP.Mask
+			return s, true
+		}
 		if p, recv := t.stdMethod(x); p != "" {
 			return "(" + p + " " + t.bytesExpr(recv, b) + ")", true
 		}
@@ -240,6 +257,9 @@ func (t *lpTr) appendExpr(c *ast.CallExpr, b *lpBinds) string {
 }
 
 func (t *lpTr) extStructExpr(e ast.Expr, b *lpBinds) (string, bool) {
+	if s, ok := t.marshalExpr(e, b); ok { // loops_marshal.go: &T{…}, x.M() on a pointer receiver, *p of a scalar pointer
+		return s, true
+	}
 	switch x := e.(type) {
 	case *ast.SelectorExpr:
 		return t.fieldRead(x, b)
@@ -316,6 +336,9 @@ func (t *lpTr) extStructExpr(e ast.Expr, b *lpBinds) (string, bool) {
 
 // x == nil / x != nil on a byte slice
 func (t *lpTr) extCond(e ast.Expr, b *lpBinds) (string, bool) {
+	if s, ok := t.marshalCond(e, b); ok { // loops_marshal.go: a bool field of a struct
+		return s, true
+	}
 	be, ok := e.(*ast.BinaryExpr)
 	if !ok || (be.Op != token.EQL && be.Op != token.NEQ) {
 		return "", false
@@ -519,6 +542,15 @@ func (t *lpTr) extStructCallStmt(c *ast.CallExpr, b *lpBinds) bool {
 }
 
 func (t *lpTr) extStructAssignedCall(c *ast.CallExpr, res map[*types.Var]bool) {
+	if t.marshalPutWidth(c) != 0 { // loops_marshal.go
+		if v := t.rootVar(c.Args[0]); v != nil {
+			res[v] = true
+		}
+		return
+	}
+	if t.marshalReadOnlyMethod(c) { // loops_marshal.go: a translated pointer-receiver method that writes nothing
+		return
+	}
 	sel, ok := paren(c.Fun).(*ast.SelectorExpr)
 	if !ok {
 		return
@@ -875,6 +907,9 @@ func (t *lpTr) commaOkIf(x *ast.IfStmt, rest []ast.Stmt, ind int, j *lpJump, k l
 // ---- switch ----
 
 func (t *lpTr) extStmt(s ast.Stmt, rest []ast.Stmt, ind int, j *lpJump, k lpKont) ([]string, bool) {
+	if ls, ok := t.marshalStmt(s, rest, ind, j, k); ok { // loops_marshal.go: `x, err := f(…); if err != nil { return …, err }`, PutUint16/32
+		return ls, true
+	}
 	sw, ok := s.(*ast.SwitchStmt)
 	if !ok {
 		var b lpBinds
